@@ -6,6 +6,22 @@ from checks import semcommon, jsongraph
 PROP = "C17"
 
 
+def language_differences(notes_path, part):
+    """A text the reference automaton rejects - it cannot be continued, or it ends early - has a parsing error (the statement says where);
+    a text it accepts has none. The scanner-level call has nothing to refuse in a text without any value yet (blanks, comments only:
+    that is Check's business), every other difference of the two languages is a violation. (At most two texts per state are kept.)"""
+    out = []
+    for m in vlib.read_ndjson(notes_path):
+        want, _, where = m["want"].partition(" in ")
+        state = where.split("/")[0].strip('"')
+        no_value_yet = state == "lead" or '"lead"' in where
+        if m["got"]["ok"] and want == "reject" and no_value_yet:
+            continue
+        out.append({"part": part, "what": "no parsing error" if m["got"]["ok"] else "parsing error in a text that can be continued", "content": m["bytes"], "pos": m.get("want_pos", -1),
+                    "want": m["want"][:80], "got": json.dumps(m["got"])[:160], "trailing": False})
+    return out
+
+
 def run(tier, argv):
     rep = vlib.Report(PROP, tier)
     work = vlib.Work(PROP)
@@ -77,10 +93,12 @@ def run(tier, argv):
         elif m["what"] == "panic":
             bad.append({"part": "schema-parse-position", "what": "panic", "content": m["bytes"], "pos": m["want_pos"], "want": m["want"], "got": json.dumps(m["got"])[:160], "trailing": False})
     rep.notes["schema_language_differences"] = [{"text": bytes(m["bytes"]).decode("latin-1"), "spec": m["want"], "scanner_ok": m["got"]["ok"]} for m in list(vlib.read_ndjson(notes))[:12]]
+    bad += language_differences(notes, "schema-parse-position")
     # (i'') parse errors of the enum-rule notation: reference automaton of EnumText through Enum.Check
     gpe, ge = jsongraph.export_enum_graph(work, rep, "a")
     oute = work.path("epos.ndjson")
-    p = vlib.run_harness(hbin, ["c05graph", "-graph", gpe, "-out", oute, "-positions", "-sut", "enum"], timeout=3000)
+    enotes = work.path("enotes.ndjson")
+    p = vlib.run_harness(hbin, ["c05graph", "-graph", gpe, "-out", oute, "-positions", "-sut", "enum", "-notes", enotes], timeout=3000)
     if p.returncode != 0:
         raise vlib.Infra("c05graph (enum) failed: " + p.stderr.decode()[-2000:])
     for l in p.stderr.decode().split("\n"):
@@ -93,6 +111,7 @@ def run(tier, argv):
     for m in vlib.read_ndjson(oute):
         if m["what"] in ("position", "panic"):
             bad.append({"part": "enum-parse-position", "what": m["what"], "content": m["bytes"], "pos": m["want_pos"], "want": str(m["want_pos"]), "got": json.dumps(m["got"])[:160], "trailing": False})
+    bad += language_differences(enotes, "enum-parse-position")
     # (i-regex) the token of a regex type
     gpr, gr = jsongraph.export_regex_graph(work, rep, "a")
     outr = work.path("rpos.ndjson")
